@@ -209,7 +209,7 @@ func (t *Type) yang(b *strings.Builder) {
 		b.WriteString("type enumeration {")
 		for _, e := range t.Enums {
 			name := e.Name
-			if name[0] >= '0' && name[0] <= '9' {
+			if (name[0] >= '0' && name[0] <= '9') || strings.ContainsAny(name, " \t;{}") {
 				name = "\"" + name + "\"" // (the lexer reads an unquoted digit as the start of a number)
 			}
 			fmt.Fprintf(b, " enum %s { value %d; }", name, e.Value)
